@@ -107,6 +107,9 @@ def run_config(ctx, r, idx):
 	except SystemExit:
 		ctx.count("configs_rejected_by_argparse")
 		return
+	except sim.NothingBound as e:
+		ctx.violation("ports", w, what = "no transceiver listens on any port: %s" % e)
+		return
 	try:
 		if not check_ports(ctx, aw, bind, plan, w):
 			return
